@@ -319,6 +319,24 @@ Proof.
   vec_unfold. v3eq; field; split; assumption.
 Qed.
 
+(* the whole input of the SVD (centre and centred, weighted vectors) is unchanged by a uniform scaling of the weights *)
+Lemma fold_add_scale (s : R) : forall (w : list R) (acc : R),
+  fold_left Rplus (map (fun x => Rmult x s) w) (acc * s) = fold_left Rplus w acc * s.
+Proof. induction w as [|x w IH]; intros acc; cbn [map fold_left]; [reflexivity|]. rewrite <- IH. f_equal. ring. Qed.
+Lemma mean_weight_scale (w : list R) (s : R) : @mean_weight RNum (map (fun x => Rmult x s) w) = @mean_weight RNum w * s.
+Proof.
+  unfold mean_weight. rewrite map_length. cbn [nadd ndiv RNum]. unfold n0. cbn [nofZ RNum].
+  replace 0 with (0 * s) at 1 by ring. rewrite fold_add_scale. unfold Rdiv. rewrite Rmult_assoc, (Rmult_comm s), <- Rmult_assoc. reflexivity.
+Qed.
+Theorem centred3_weights_scale (pts : list V) (w : list R) (s : R) : s <> 0 ->
+  snd (@wsum3 RNum pts w) <> 0 -> @mean_weight RNum w <> 0 ->
+  @centred3 RNum pts (Some (map (fun x => Rmult x s) w)) = @centred3 RNum pts (Some w).
+Proof.
+  intros Hs Hw Hm. unfold centred3. rewrite mean3_weighted_scale by assumption. f_equal.
+  rewrite mean_weight_scale, combine_map_r, map_map. apply map_ext. intros [p x]. cbn [fst snd]. f_equal.
+  cbn [ndiv nmul RNum]. match goal with |- ?L = ?R' => change (@eq R L R') end. field. split; assumption.
+Qed.
+
 (* ---- basis coordinates ---- *)
 Theorem to_from_basis3 (b0 b1 b2 c q : V) : orthonormal3 b0 b1 b2 ->
   @to_basis3 RNum (b0, b1, b2) c (@from_basis3 RNum (b0, b1, b2) c q) = q.
